@@ -99,7 +99,7 @@ fn chunk_spaced(rng: &mut Rng, vocab: &[String], depth: u32) -> String {
         };
     }
     let d = depth - 1;
-    match rng.below(47) {
+    match rng.below(48) {
         0..=4 => prim(rng) + " ",
         5 => format!("{}{} ", prim(rng), num(rng)),
         6 => format!("{}{}={} ", prim(rng), num(rng), num(rng)),
@@ -197,6 +197,23 @@ fn chunk_spaced(rng: &mut Rng, vocab: &[String], depth: u32) -> String {
                 1 => format!("{{{make}\\global{alias}}}{u}"),
                 _ => format!("{make}{alias}{u}"),
             }
+        }
+        46 => {
+            // state that only takes effect when the lexer starts another line (of this file, of an \input
+            // file, of a \read stream): set it to an edge value, then start a line
+            let set = match rng.below(4) {
+                0 | 1 => format!("\\endlinechar={} ", num(rng)),
+                2 => format!("\\catcode{}={} ", pick(rng, &["13", "32", "10", "`\\^^M", "`\\ ", "`a", "92", "`\\\\"]), pick(rng, &["0", "5", "9", "10", "13", "14", "15", "11"])),
+                _ => format!("\\count1={} \\endlinechar=\\count1 ", num(rng)),
+            };
+            let next = match rng.below(5) {
+                0 => "\n".to_string(),
+                1 => "\nab \n".to_string(),
+                2 => format!("\\input {} ", pick(rng, &["fa", "fb", "fc", "dir/fd"])),
+                3 => "\\openin1=fa \\read1 to\\xa \\read1 to\\xb ".to_string(),
+                _ => format!("\n{}\n", chunk(rng, vocab, 0)),
+            };
+            format!("{set}{next}")
         }
         _ => pick(rng, ODD).to_string(),
     }
